@@ -82,7 +82,7 @@ TFl == Ev("Fl") /\ Consume /\ ~Rec.canceled /\ NoChange
 
 (* --------------------------- ds_pending_data --------------------------- *)
 TPdUpd == /\ Ev("Pd") /\ Rec.op \in {"add", "or", "store"} /\ Consume
-          /\ \/ pc[T] = "m_upd" /\ MUpdate(T) /\ (Rec.op # "store" => pending = Rec.old)
+          /\ \/ pc[T] = "m_upd" /\ MUpdate(T) /\ (Rec.op # "store" => pending = Rec.old)    \* a store record carries the value stored
              \/ pc[T] = "latch_st" /\ Rec.op = "store" /\ LatchSt(T)        \* only under Mut = "latch_load_store"
           /\ pending' = Rec.new /\ MoChk("relaxed")
 TPdXchg == Ev("Pd") /\ Rec.op = "xchg" /\ Consume /\ pending = Rec.old /\ Latch(T) /\ pending' = Rec.new /\ MoChk("relaxed")
@@ -91,6 +91,7 @@ TPdLoad == /\ Ev("Pd") /\ Rec.op = "load" /\ Consume /\ pending = Rec.old /\ MoC
               \/ pc[T] = "i2_pend" /\ I2Pend(T)
               \/ pc[T] = "i2_after" /\ I2After(T)
               \/ pc[T] = "latch_ld" /\ LatchLd(T)         \* only under Mut = "latch_load_store"
+              \/ pc[T] = "m_ld" /\ MLoad(T)               \* only under Mut = "merge_load_store"
 
 (* ------------------------------- dq_state ------------------------------- *)
 StOld == Strip(Rec.old)
